@@ -27,6 +27,8 @@ RULE = ("classes of the documented recovery table (missing value, unexpected val
         "in [defect, following token], content = documented recovery applied to the host, defect-free host = no callback")
 
 S = lambda t, p="bare": ("str", t, p)      # noqa: E731
+# unquoted words that begin like a block / frame header without being one (the scanner tracks a keyword in progress)
+KW_PREFIX_WORDS = ["ab", "d", "da", "dat", "data", "s", "sa", "sav", "save", "D", "Da", "SAV", "Save", "l", "loop", "st", "stop", "g", "globa", "x"]
 
 HOSTS2 = [
     [("a", [("item", "_x", S("1")), ("item", "_y", S("two words", "sq")), ("item", "_z", S("line1\nline2", "text"))])],
@@ -186,6 +188,12 @@ def plant_container_level(doc, dia, r):
                 if dia == 2:            # (in CIF 1.1 a quote that is not followed by whitespace is part of the value)
                     yield ("missing_space/" + tag, with_elems(doc, path, elems[:k] + [("item", e[1], ("rawv", "'ab'cd"))] + elems[k + 1:]),
                            with_elems(doc, path, elems[:k] + [("item", e[1], S("ab", "sq"))] + elems[k + 1:]), 105, {}, None)
+                    # … and between an unquoted value and an opening bracket / brace; the words that are proper prefixes of the
+                    # data_ / save_ keywords (any case) are ordinary values there
+                    w = KW_PREFIX_WORDS[(k + len(tag)) % len(KW_PREFIX_WORDS)]
+                    for opener in ("[1 2]", "{'k':1}"):
+                        yield ("missing_space_bracket/" + tag, with_elems(doc, path, elems[:k] + [("item", e[1], ("rawv", w + opener))] + elems[k + 1:]),
+                               with_elems(doc, path, elems[:k] + [("item", e[1], S(w))] + elems[k + 1:]), 105, {}, None)
                 # missing end-quote: assume it at the end of the line
                 yield ("missing_endquote/" + tag, with_elems(doc, path, elems[:k] + [("item", e[1], ("rawv", "'no end \n"))] + elems[k + 1:]),
                        with_elems(doc, path, elems[:k] + [("item", e[1], S("no end ", "sq"))] + elems[k + 1:]), 106, {}, None)
@@ -252,6 +260,11 @@ def plant_container_level(doc, dia, r):
                             yield put(("list", items[:i] + [("rawv", "stop_")] + items[i:]), ("list", items), "reserved_word_in_list", 132)
                             yield put(("list", items[:i] + [("rawv", "'ab'cd")] + items[i:]), ("list", items[:i] + [S("ab", "sq"), S("cd")] + items[i:]),
                                       "missing_space_in_list", 105)
+                            w = KW_PREFIX_WORDS[(i + k) % len(KW_PREFIX_WORDS)]
+                            yield put(("list", items[:i] + [("rawv", w + "[1]")] + items[i:]), ("list", items[:i] + [S(w), ("list", [S("1")])] + items[i:]),
+                                      "missing_space_bracket_in_list", 105)
+                            yield put(("list", items[:i] + [("rawv", w + "{'j':2}")] + items[i:]),
+                                      ("list", items[:i] + [S(w), ("table", [("j", "sq", S("2"))])] + items[i:]), "missing_space_brace_in_list", 105)
                             yield put(("list", items[:i] + [("rawv", "'k':1")] + items[i:]), ("list", items[:i] + [S("k", "sq"), S(":1")] + items[i:]),
                                       "missing_space_key_in_list", 105)
                             yield put(("list", items[:i] + [("rawv", "$v")] + items[i:]), ("list", items[:i] + [S("$v", "sq")] + items[i:]), "invalid_bare_in_list", 74,
